@@ -4,16 +4,20 @@
 package stringy
 
 //@ func NewCommandBasedAuthorizer(ctx context.Context, l loggerProvider, b tq.AuthorRequest, u config.User) (res *CommandBasedAuthorizer)
+//@   unverified argument helpers (strings package) not under contract yet
 //@   ensures fresh(res)
 //@   ensures res != nil ==> res.loggerProvider == l
 
 //@ func NewSessionBasedAuthorizer(ctx context.Context, l loggerProvider, b tq.AuthorRequest, u config.User) (res *SessionBasedAuthorizer)
+//@   unverified argument helpers (strings package) not under contract yet
 //@   ensures fresh(res)
 //@   ensures res != nil ==> res.loggerProvider == l
 
 //@ func (a CommandBasedAuthorizer) evaluate() (ok bool)
+//@   unverified policy evaluation is the subject of C11
 
 //@ func (sa SessionBasedAuthorizer) evaluate() (args []string, status tq.AuthorStatus)
+//@   unverified policy evaluation is the subject of C11
 
 //@ func (a Authorizer) Handle(response tq.Response, request tq.Request)
 //@   implements tq.Handler.Handle
